@@ -101,7 +101,21 @@ async fn run_async(c: &Case) -> Verdict {
     let mut serial = 0u32;
     let mut nt = false;
     let mut last_put_remote: Option<usize> = None; // node that did a put with ≥1 remote replica
+    // The reference model is sequential: an operation starts in a quiet network. A frame that a slow node (delay
+    // above the request timeout) receives after its request timed out would otherwise still be in flight when the
+    // next operation runs and could overwrite that operation's value (last writer wins) - a race between two
+    // operations, which the property does not speak about. So after every operation the network is drained for
+    // the longest delay configured so far (virtual time, free).
+    let mut max_delay_ms: u64 = 0;
+    for op in &c.ops {
+        if let Op::SetMode(_, Mode::Slow(ms)) | Op::SetModeAfter(_, _, Mode::Slow(ms)) = op {
+            max_delay_ms = max_delay_ms.max(*ms as u64);
+        }
+    }
     for (step, op) in c.ops.iter().enumerate() {
+        if max_delay_ms > 0 && step > 0 {
+            settle(max_delay_ms + 10).await;
+        }
         match op {
             Op::SetMode(i, m) => {
                 let i = *i as usize % n;
@@ -267,6 +281,17 @@ async fn run_async(c: &Case) -> Verdict {
                 let trace = hub.trace();
                 settle(5).await;
                 let after = stores(&nodes, &keys).await;
+                if std::env::var("VERIF_DEBUG").is_ok() {
+                    eprintln!("step {step} put by node {i} key {ki} len {len} at {:?}", hub.t());
+                    for e in &trace {
+                        match e {
+                            Ev::Frame { t, from, to, dht: Some(d), .. } => eprintln!("  {t:?} frame {}→{} {} req={} {:?}", name_to_node.get(from).map(|x| x.to_string()).unwrap_or_default(), name_to_node.get(to).map(|x| x.to_string()).unwrap_or_default(), d.op, d.is_request, d.result),
+                            Ev::Deliver { t, from, to, dht: Some(d), .. } => eprintln!("  {t:?} deliver {}→{} {} req={}", name_to_node.get(from).map(|x| x.to_string()).unwrap_or_default(), name_to_node.get(to).map(|x| x.to_string()).unwrap_or_default(), d.op, d.is_request),
+                            _ => {}
+                        }
+                    }
+                    eprintln!("  stores after: {:?}", after.iter().map(|r| r[ki].as_ref().map(|x| x.len())).collect::<Vec<_>>());
+                }
                 let r = match r {
                     Err(_) => {
                         v.fail(format!("{ID}/put/did-not-complete"), format!("step {step}"));
